@@ -21,6 +21,19 @@ PROPS = {
         assumptions=["strings are arbitrary byte sequences (Go strings); len fits in int"],
     ),
 }
+PROPS["C18"] = dict(
+    n_quick=40000, n_thorough=2000000,
+    rule="cases: (60%) pairs of rectangles + a probe point over int and over float64 restricted to dyadic values where Go's +,- are exact "
+         "(empty, negative, sub-unit, equal, nested, abutting, overlapping; probe points on corners/edges); (20%) matrix pairs with entries "
+         "multiples of 1/8 (exact products), translate/scale parameters, arbitrary angles (Go's sin/cos fed to the model, 1e-9 relative tolerance "
+         "on the rotation entries only); (20%) polygons of 1-3 contours on a lattice (incl. rectilinear, horizontal/vertical edges, empty contours) "
+         "with a query point, exact on-edge test. non-trivial = rectangle case with both operands non-empty, any matrix case, polygon with >= 3 vertices "
+         "and the point on no edge; distinct = distinct case text",
+    trivial_class=r"(\+empty|trivial|on-edge|^bad$|^exn$)",
+    trusted_base=["xmath.Sin/Cos are inputs to the rotation law (any s,c); float64 arithmetic is compared only where it is exact (dyadic domain), "
+                  "rounding of general floats is outside the theorem"],
+    assumptions=["no integer overflow in int coordinates; floats finite (no NaN/Inf)", "query points of Contains lie on no edge"],
+)
 
 # properties not (yet) claimed, with the reason; an entry is dropped automatically once the property is in PROPS
 NOT_APPLICABLE = {
@@ -29,6 +42,14 @@ NOT_APPLICABLE = {
 }
 
 MANIFEST_TEXT = {
+    "C18": dict(
+        level_text="Proof: Contains = inclusion of a non-empty rectangle, Intersects = common point, Intersect = common points, Union = least "
+                   "cover, empties, the four affine composition laws + identity, Contour.Contains = parity of the textbook crossing number off "
+                   "the edges, Bounds encloses every vertex, Transform = map -- all Coq theorems over the rationals (which contain every int and "
+                   "finite float64) for an executable model; the model is compared with the Go code on int and exact-dyadic float64 inputs.",
+        level_note="Trusted: Coq kernel, extraction, drivers, harness; model hand-written, tied by correspondence on sampled inputs; float rounding "
+                   "outside the exact dyadic domain and sin/cos themselves are not covered by a theorem.",
+        technique="Coq proof (lra/nra/ring over Q) on a hand-written Gallina model + differential correspondence check"),
     "C20": dict(
         level_text="Proof: antisymmetry, transitivity, 'zero only for identical strings', result range, NaturalLess agreement and "
                    "uniqueness of the sorted permutation are Coq theorems for all byte strings and both modes over an executable model of "
